@@ -109,6 +109,7 @@ func Run(r *vh.Run) {
 		{"rejects", r.Pick(5, 80), scenRejects, false},
 		{"matrix", r.Pick(20, 60), scenMatrix, true},
 		{"syncclose", r.Pick(4, 40), scenSyncClose, false},
+		{"relay", r.Pick(3, 30), scenRelay, false},
 		{"caps", r.Pick(6, 120), scenCaps, false},
 		{"capsout", r.Pick(2, 30), scenCapsOut, false},
 		{"shutdown", r.Pick(14, 252), scenShutdown, false},
@@ -1266,6 +1267,167 @@ func scenSyncClose(name string, rng *vh.RNG, r *vh.Run) {
 	c.Key = fmt.Sprintf("%s/%d", name, len(events))
 	inventory(c)
 	tags := []string{"scen:syncclose"}
+	if tc := teardownCase(name, events, srv.s.VerifID(), srv.s.VerifTG(), tags); tc != nil {
+		r.Add(tc)
+	}
+	for _, tc := range tgCases(name, events, map[int]bool{srv.s.VerifTG(): true}, tags) {
+		r.Add(tc)
+	}
+}
+
+// smallBufDialer dials with a tiny socket send buffer (so that a peer that stops reading blocks
+// the sender after a few kilobytes).
+type smallBufDialer struct{ net.Dialer }
+
+func (d *smallBufDialer) DialContext(ctx context.Context, network, addr string) (net.Conn, error) {
+	conn, err := d.Dialer.DialContext(ctx, network, addr)
+	if tc, ok := conn.(*net.TCPConn); ok && err == nil {
+		tc.SetWriteBuffer(2048)
+	}
+	return conn, err
+}
+
+// scenRelay: a broadcast to several peers returns at the first successful relay; the relays to the
+// other peers go on in goroutines of their own, which must be members of the thread group (Close
+// has to wait for them).  One peer is a regular node (fast), the others are raw gateway peers that
+// complete the handshake and then never read: a multi-megabyte transaction set cannot be written
+// to them, their relay stays in flight.  Close is called in that window.
+func scenRelay(name string, rng *vh.RNG, r *vh.Run) {
+	nSlow := 1 + rng.Intn(2)
+	size := (3 + rng.Intn(2)) << 20
+	c := &vh.Case{Name: name, Tags: []string{"scen:relay"}, Info: map[string]any{"slow_peers": nSlow, "payload": size}}
+	defer func() { r.Add(c) }()
+	threadgroup.VerifStart()
+	srv, err := newNode("127.0.0.1", "", nil, false, syncer.WithDialer(&smallBufDialer{}))
+	if err != nil {
+		orc(c, "setup", "server: %v", err)
+		return
+	}
+	fast, err := newNode("127.0.0.1", "", nil, false)
+	if err != nil {
+		orc(c, "setup", "peer: %v", err)
+		return
+	}
+	if _, err := srv.s.Connect(context.Background(), fast.s.Addr()); err != nil {
+		orc(c, "setup", "connect: %v", err)
+		return
+	}
+	var listeners []net.Listener
+	var transports []*gateway.Transport
+	var tmu sync.Mutex
+	for i := 0; i < nSlow; i++ {
+		lr, err := net.Listen("tcp", "127.0.0.1:0")
+		if err != nil {
+			orc(c, "setup", "listen: %v", err)
+			return
+		}
+		listeners = append(listeners, lr)
+		hdr := srv.hdr
+		hdr.UniqueID = gateway.GenerateUniqueID()
+		hdr.NetAddress = lr.Addr().String()
+		accepted := make(chan error, 1)
+		go func() {
+			conn, err := lr.Accept()
+			if err != nil {
+				accepted <- err
+				return
+			}
+			if tc, ok := conn.(*net.TCPConn); ok {
+				tc.SetReadBuffer(2048)
+			}
+			conn.SetDeadline(time.Now().Add(10 * time.Second))
+			t, err := gateway.Accept(conn, hdr)
+			if err == nil {
+				conn.SetDeadline(time.Time{})
+				tmu.Lock()
+				transports = append(transports, t)
+				tmu.Unlock()
+			}
+			accepted <- err
+		}()
+		if _, err := srv.s.Connect(context.Background(), lr.Addr().String()); err != nil {
+			orc(c, "setup", "connect to the slow peer: %v", err)
+			return
+		}
+		if err := <-accepted; err != nil {
+			orc(c, "setup", "slow peer handshake: %v", err)
+			return
+		}
+	}
+	cleanup := func() {
+		tmu.Lock()
+		for _, t := range transports {
+			t.Close()
+		}
+		tmu.Unlock()
+		for _, l := range listeners {
+			l.Close()
+		}
+		closeWithin(func() { fast.s.Close() }, closeDeadline)
+	}
+	nPeers := 1 + nSlow
+	txns := []types.V2Transaction{{ArbitraryData: make([]byte, size)}}
+	mark := len(threadgroup.VerifSnapshot())
+	bdone := make(chan error, 1)
+	go func() { bdone <- srv.s.BroadcastV2TransactionSet(srv.cm.Tip(), txns) }()
+	select {
+	case err := <-bdone:
+		if err != nil {
+			orc(c, "broadcast-failed", "BroadcastV2TransactionSet with one fast peer returned %v", err)
+		}
+	case <-time.After(settleDeadline):
+		orc(c, "broadcast-failed", "BroadcastV2TransactionSet with one fast peer did not return within %v", settleDeadline)
+	}
+	time.Sleep(50 * time.Millisecond)
+	// every relay goroutine of the broadcast must have joined the thread group
+	joined := map[int]bool{}
+	for _, e := range threadgroup.VerifSnapshot()[mark:] {
+		if e.Kind == "tg.add" && e.A == srv.s.VerifTG() && e.B == 1 {
+			joined[e.G] = true
+		}
+	}
+	inFlight := 0
+	for _, g := range repoGoroutines() {
+		if strings.Contains(g, "RelayV2TransactionSet") {
+			inFlight++
+		}
+	}
+	c.Info["relays_in_flight_after_broadcast_returned"] = inFlight
+	if len(joined) < nPeers {
+		orc(c, "relay-goroutine-outside-thread-group", "a broadcast to %d peers started %d relay goroutine(s) that joined the thread group (%d relay(s) still in flight after the broadcast returned): relays that outlive the broadcast run outside the thread group, Close does not wait for them", nPeers, len(joined), inFlight)
+	}
+	if inFlight > 0 {
+		c.Tags = append(c.Tags, "relay:straggler-in-flight-at-close")
+	}
+	time.Sleep(time.Duration(rng.Intn(3000)) * time.Microsecond)
+	closeDone := make(chan struct{})
+	var after []string
+	go func() {
+		srv.s.Close()
+		for _, g := range repoGoroutines() {
+			if strings.Contains(g, "withPeers") {
+				after = append(after, firstLines(g, 10))
+			}
+		}
+		close(closeDone)
+	}()
+	select {
+	case <-closeDone:
+		if len(after) > 0 {
+			orc(c, "relay-running-after-close", "%d relay goroutine(s) of a broadcast were still running when Syncer.Close returned: %s", len(after), after[0])
+		}
+	case <-time.After(closeDeadline):
+		orc(c, "syncer-close-hung", "Syncer.Close did not return within %v with a relay in flight", closeDeadline)
+	}
+	if err := srv.s.BroadcastV2TransactionSet(srv.cm.Tip(), txns[:1]); err == nil {
+		orc(c, "broadcast-after-close", "a broadcast after Close was not rejected")
+	}
+	cleanup()
+	events := threadgroup.VerifStop()
+	c.Nontrivial = true
+	c.Key = fmt.Sprintf("%s/%d", name, len(events))
+	inventory(c)
+	tags := []string{"scen:relay"}
 	if tc := teardownCase(name, events, srv.s.VerifID(), srv.s.VerifTG(), tags); tc != nil {
 		r.Add(tc)
 	}
